@@ -25,7 +25,7 @@ type c10Case struct {
 func init() {
 	engine.Register(&engine.Check{
 		ID: "C10", Level: "exploration",
-		Rule:        "(a) every ordered triple of points of the 5x5 (quick) / 7x7 (thorough) integer grid, also scaled by 2^330 and 2^-330 and translated by 2^40; (b) for each of 24 exactly collinear base triples with non-trivial mantissas (slopes 1, 1/3, 7/5, -2/9, magnitudes 1e-100..1e100) every perturbation of the six ordinates by {-2..2} (quick) / {-3..3} (thorough) ulps; (c) every triple over the 27-bit coordinate set {0,1,2^26,2^27-1,2^27-3}^2; extra ordinates NaN/Inf; oracle = sign of the exact rational cross product for bigxy.OrientationIndex and xy.OrientationIndex, plus antisymmetry and cyclic invariance. distinct_nontrivial = distinct triples whose exact determinant is non-zero or whose points are pairwise distinct Also: Fibonacci/Pell lattice points up to 2^51 around three origins (cross product +-1 with exact integer ordinates), and points of magnitudes 2^-330..2^330 on one line through the origin with single ordinates 1 or 3 ulps off.",
+		Rule:        "(a) every ordered triple of points of the 5x5 (quick) / 7x7 (thorough) integer grid, also scaled by 2^330 and 2^-330 and translated by 2^40; (b) for each of 24 exactly collinear base triples with non-trivial mantissas (slopes 1, 1/3, 7/5, -2/9, magnitudes 1e-100..1e100) every perturbation of the six ordinates by {-2..2} (quick) / {-3..3} (thorough) ulps; (c) every triple over the 27-bit coordinate set {0,1,2^26,2^27-1,2^27-3}^2; extra ordinates NaN/Inf; oracle = sign of the exact rational cross product for bigxy.OrientationIndex and xy.OrientationIndex, plus antisymmetry and cyclic invariance. distinct_nontrivial = distinct triples whose exact determinant is non-zero or whose points are pairwise distinct Also: Fibonacci/Pell lattice points up to 2^51 around three origins (cross product +-1 with exact integer ordinates), and points of magnitudes 2^-330..2^330 on one line through the origin with single ordinates 1 or 3 ulps off; every triple over {0,1e-100,3e-50,1,2,3,1e100}^2 (one axis spanning 660 binary orders, the other narrow) and its mirror image.",
 		Run:         c10Run,
 		Replay:      func(c *engine.Ctx, kind string, raw json.RawMessage) { c10Exec(c, decodeCase[c10Case](raw)) },
 		Assumptions: []string{"math/big rationals are exact; ordinates are zero or of magnitude within [1e-100,1e100]"},
@@ -297,6 +297,28 @@ func c10Run(c *engine.Ctx) {
 					w[k] = ref.F(ulps(float64(w[k]), d))
 					c10Exec(c, c10Case{Pts: w})
 				}
+			}
+		}
+	})
+	// per-axis magnitude product: every triple of points of V x V, V = {0, 1e-100, 3e-50, 1, 2, 3,
+	// 1e100} and its negation - one axis can span 660 binary orders while the other is narrow, and
+	// a single tiny ordinate can be the whole determinant ((1,1),(2,2),(1e-100,0))
+	vals := []float64{0, 1e-100, 3e-50, 1, 2, 3, 1e100}
+	var prod [][2]float64
+	for _, x := range vals {
+		for _, y := range vals {
+			prod = append(prod, [2]float64{x, y})
+		}
+	}
+	c.Parallel(len(prod), func(i int) {
+		a := prod[i]
+		for _, b := range prod {
+			for _, p := range prod {
+				v := []ref.F{ref.F(a[0]), ref.F(a[1]), ref.F(b[0]), ref.F(b[1]), ref.F(p[0]), ref.F(p[1])}
+				c10Exec(c, c10Case{Pts: v})
+				w := []ref.F{ref.F(-a[0]), ref.F(a[1]), ref.F(-b[0]), ref.F(b[1]), ref.F(-p[0]), ref.F(p[1])}
+				c10Exec(c, c10Case{Pts: w, Extra: true})
+				c.Count("axis_magnitude_triples", 2)
 			}
 		}
 	})
